@@ -57,6 +57,12 @@ EVENT_ONLY_CALCS = ("xray_all_fwd", "xray_all_rev", "comparison_tables", "edep_t
                     "print_scattering", "cromermann", "from_atoms", "activity_fn", "volume_routes")
 
 
+# the actual name of each private table: an ordinary name and the empty string (falsy but accepted by PeriodicTable;
+# a name is only a dictionary key for pickling, so nothing may depend on its truth value)
+TABLE_NAMES = {"T1": "T1", "T2": ""}
+TABLE_LABELS = dict((v, k) for k, v in TABLE_NAMES.items())
+
+
 NO_TABLE_CALCS = ("D2O_sld", "fasta", "print_scattering", "cromermann", "D2O_match")
 
 
@@ -464,7 +470,7 @@ def do_event(w, ev):
         return calc(ev[1], w.table(ev[2]), ev[2] == "public")
     if kind == "create":
         from periodictable import core, mass, density
-        t = core.PeriodicTable(ev[1])
+        t = core.PeriodicTable(TABLE_NAMES.get(ev[1], ev[1]))
         mass.init(t)
         density.init(t)
         w.tables[ev[1]] = t
@@ -485,12 +491,12 @@ def do_event(w, ev):
         mine = t[z]
         if iso:
             mine = mine[iso]
-        return [repr(a), a.table, a is mine]
+        return [repr(a), TABLE_LABELS.get(a.table, a.table), a is mine]
     if kind == "formula":
         import periodictable as pt
         t = w.table(ev[2])
         f = formula_route(pt, ev[1], t)
-        return sorted(set(a.table for a in f.atoms))
+        return sorted(set(TABLE_LABELS.get(a.table, a.table) for a in f.atoms))
     raise ValueError(kind)
 
 
